@@ -296,6 +296,15 @@ def compare(ctx, cases, impl, model, variant):
                 ctx.sample({"op": line[:200], "result": a})
             continue
         w = line.split()
+        if op == "cmsprint" and w[1] != "names" and not a.startswith("FAULT"):
+            # what the text renderer shows is outside the property text: an observation; a renderer that faults stays a violation
+            if not hasattr(ctx, "observations"):
+                ctx.observations = []
+            ctx.count("observation:" + cell)
+            if not any(o["key"] == cell for o in ctx.observations):
+                ctx.observations.append({"key": cell, "variant": variant, "op": line[:400], "impl": a[:200], "model": rep[:200]})
+                print("OBSERVATION: property=%s key=%s [%s] outside the property text (not a violation): op `%s` impl=%s model=%s" % (ctx.prop, cell, variant, line[:120], a[:60], rep[:60]))
+            continue
         if op == "enc" and w[1] == "1" and a != "E=1 D=1" and a.startswith("E=1"):
             # a wrong symmetric key either fails the padding check or yields other bytes (no integrity in EncryptedData): never the content
             ctx.cell(cell + ":not-the-content")
@@ -365,7 +374,7 @@ def finish(ctx):
         "tamper sweeps: regions named by the property (content, signature, the opener's encrypted key, IV, ciphertext) are located with the library's own parsers on the untouched message; accepted changes elsewhere (certificates carried along, other recipients' infos, redundant structure) are counted, not judged",
         "zero-signer SignedAndEnvelopedData is not built by the harness (only SignedData), see the theorem C16_no_signer_no_verify for the model",
     ]
-    return ctx.finish(level="proof",
+    return ctx.finish(level="proof", extra={"observations": getattr(ctx, "observations", [])},
                       rule="cases = signed data over signer sets (1..4, repeated, permuted, none) x content types x sizes 0..64 KiB around the block size; zero-signer SignedData written with the library's field writers; enveloped data over recipient sets 1..5 x every member and an outsider x key object source (generated / DER / PEM / from certificate); encrypted data sizes and wrong key; signed-and-enveloped over signer x recipient sets x CRL present/absent x key source; complete single-bit sweeps of one message of each kind classified by region; every single DER element of each message kind removed in turn (well-formed result) must be refused; same-issuer certificates whose serials are byte-prefixes of one another as signers / recipients in both orders; signer information empty / absent / junk; a cell = (op, set sizes, source, size class, ok|ERR)",
-                      trusted=core.TRUSTED_COMMON + ["Coq files: Pki/Cms.v (model), Pki/CmsProofs.v, Props/Properties_C16.v",
+                      trusted=core.TRUSTED_COMMON + ["Coq files: Pki/Cms.v, Pki/CmsCodec.v (models), Pki/CmsProofs.v, Pki/CmsCodecProofs.v, Pki/X509Codec.v (positional-record machinery), Props/Properties_C16.v",
                                                      "harness/entropy.h scripted getentropy()/time(); region location by memmem / library parsers in props/C16/harness.c"])
